@@ -49,7 +49,9 @@ def main():
     os.makedirs(d, exist_ok=True)
     tgt = "/tmp/scratch/sv-target"       # shared between verifications, removed by the caller at the end
     env = {"CARGO_TARGET_DIR": tgt}
-    report = {"verified_at": time.strftime("%Y-%m-%dT%H:%M:%S"), "steps": []}
+    report = {"verified_at": time.strftime("%Y-%m-%dT%H:%M:%S"), "steps": [],
+              "repo_head": subprocess.run(["git", "-C", "/repo", "rev-parse", "--short", "HEAD"],
+                                          stdout=subprocess.PIPE, text=True).stdout.strip()}
     ok = True
     try:
         sh(["git", "-C", "/repo", "worktree", "add", "--detach", wt, "HEAD"])
